@@ -540,6 +540,31 @@ def r13f(ctx: Context) -> None:
             rule.ok(key, "writes no field of the helper")
 
 
+def r13h(ctx: Context) -> None:
+    """A memoising decorator on a method of a rule (or of a helper object of the rules) is a field nobody resets: the
+    cache lives as long as the rule object, that is for the whole run, and is keyed by the arguments only - a method
+    that also reads the rule's per-file fields answers for a later file with what it computed for an earlier one."""
+    prog = ctx.prog
+    rule = ctx.rule("R13h", "no method of a rule or of a rule helper is memoised across files", 40)
+    base = prog.cls(RULE_PLUGIN)
+    caches = {"lru_cache", "cache", "cached_property", "memoize", "memoized"}
+    subjects = [c for c in base.all_subclasses() if c.module.rel.startswith("pymarkdown/plugins/")]
+    subjects += [c for c in prog.classes.values() if c.module.rel.startswith("pymarkdown/plugins/utils/")]
+    for cls in sorted(set(subjects), key=lambda c: c.qualname):
+        hits = []
+        for method in cls.methods.values():
+            for deco in method.node.decorator_list:  # type: ignore[attr-defined]
+                name = (dotted(deco.func) if isinstance(deco, ast.Call) else dotted(deco)) or ""
+                if name.split(".")[-1] in caches:
+                    hits.append((method, deco))
+        key = f"{cls.name}: memoised methods"
+        if hits:
+            method, deco = hits[0]
+            rule.fail(key, where(method, deco), f"{method.short} is decorated with '{norm(deco)}': its answers are kept for the life of the rule object (the whole run) and are not dropped by starting_new_file, so a later file is judged by what was computed for an earlier one")
+        else:
+            rule.ok(key, "none")
+
+
 def run(ctx: Context) -> None:
     r13a(ctx)
     r13b(ctx)
@@ -547,6 +572,7 @@ def run(ctx: Context) -> None:
     r13d(ctx)
     r13e(ctx)
     r13f(ctx)
+    r13h(ctx)
     from sa.rules import c14
 
     # which rules receive the events of a file must not depend on the files before it
